@@ -11,6 +11,16 @@ def q0_matrix(n, kind):
     if kind == 'identity':
         for i in range(n):
             Q[i][i] = Fr(1)
+    elif kind == 'reflect':    # an improper orthogonal matrix (determinant -1): a reflection of the 3-4-5 rotation
+        b = 0
+        if n >= 2:
+            c, sn = Fr(3, 5), Fr(4, 5)
+            Q[0][0], Q[0][1], Q[1][0], Q[1][1] = c, sn, sn, -c
+            b = 2
+        else:
+            Q[0][0] = Fr(-1); b = 1
+        for i in range(b, n):
+            Q[i][i] = Fr(1)
     elif kind == 'hadamard':
         H = [[1, 1, 1, 1], [1, -1, 1, -1], [1, 1, -1, -1], [1, -1, -1, 1]]
         b = 0
@@ -67,13 +77,61 @@ def mk(t, n, kind, strat='MGSR', det=False):
         fam = 'qr.' + strat + '.' + kind
     else:
         wit = 'extern "C" void @W@(const %s& A, %s* d){ *d = determinant<DetCompType::QR>(A); }' % (tt, ct)
-        post = 'extern "C" void @R@post(const %s* rd, %s* d){ %s p=1; for(int i=0;i<%d;i++) p = p*rd[i]; *d = p; }' % (ct, ct, ct, n)
+        import fractions
+        def fdet(M):
+            M = [r[:] for r in M]; d = fractions.Fraction(1)
+            for c in range(len(M)):
+                piv = next((r for r in range(c, len(M)) if M[r][c] != 0), None)
+                if piv is None:
+                    return fractions.Fraction(0)
+                if piv != c:
+                    M[c], M[piv] = M[piv], M[c]; d = -d
+                d *= M[c][c]
+                for r in range(c + 1, len(M)):
+                    f = M[r][c] / M[c][c]
+                    for k in range(c, len(M)):
+                        M[r][k] -= f * M[c][k]
+            return d
+        dq = fdet(Q); assert dq in (1, -1)
+        post = 'extern "C" void @R@post(const %%s* rd, %%s* d){ %%s p=%d; for(int i=0;i<%%d;i++) p = p*rd[i]; *d = p; }' % int(dq) % (ct, ct, ct, n)
         pre = pre + '\n' + post
         regions += [rreg('d', t, 1, role='out'), rreg('de', t, 1)]
         stages += [{'mod': 'wit', 'fn': '@W@', 'args': ['A', 'd']}, {'mod': 'ref', 'fn': '@R@post', 'args': ['rd', 'de']}]
         obl = [{'kind': 'equal', 'a': 'd', 'b': 'de', 'cells': 1, 'mode': 'ALG'}]
         fam = 'qr.det.' + kind
     return Witness('qr_%s_%s_%s_%d%s' % (t, strat, kind, n, '_det' if det else ''), fam, {'type': t, 'n': n, 'q0': kind, 'strategy': strat, 'det': det}, wit, pre, regions, stages, obl, extra={'poly_cap': 400000, 'max_ms': 20000})
+
+
+def mk_pivoted(t, n, kind, enc):
+    """qr<MGSRPiv>(A,Q,R,P) on A = Q0*R0 with the pivot search interpreted symbolically: in every case of the search the row-permuted
+    input is (Pi Q0) R0, so by uniqueness R == R0, Q(i,:) == Q0(P(i),:), and P is a bijection (vector) / permutation matrix"""
+    ct = CTYPE[t]; tt = tensor_t(t, [n, n])
+    Q = q0_matrix(n, kind)
+    rats = []
+    for i in range(n):
+        for j in range(n):
+            rats += [Q[i][j].numerator, Q[i][j].denominator]
+    pre = ('extern "C" void @R@pre(const %s* Q0, const %s* rd, const %s* ru, %s* A, %s* Re){ for(int i=0;i<%d;i++) for(int j=0;j<%d;j++){ Re[i*%d+j] = (i==j) ? rd[i] : (i<j ? ru[i*%d+j] : (%s)0); } '
+           'for(int i=0;i<%d;i++) for(int j=0;j<%d;j++){ %s s=0; for(int k=0;k<=j;k++) s = s + Q0[i*%d+k]*Re[k*%d+j]; A[i*%d+j]=s; } }'
+           % (ct, ct, ct, ct, ct, n, n, n, n, ct, n, n, ct, n, n, n))
+    Pt = 'Tensor<size_t,%d>' % n if enc == 'V' else tt
+    wit = 'extern "C" void @W@(const %s& A, %s& Q, %s& R, %s& P){ qr<QRCompType::MGSRPiv>(A, Q, R, P); }' % (tt, tt, tt, Pt)
+    if enc == 'V':
+        post = ('extern "C" void @R@post(const %s* Q0, const %s* Q, const unsigned long* P, %s* D, long* B){ for(int i=0;i<%d;i++) for(int j=0;j<%d;j++) D[i*%d+j] = Q[i*%d+j] - Q0[P[i]*%d+j]; '
+                'for(int i=0;i<%d;i++){ long c=0; for(int j=0;j<%d;j++) c += (P[j]==(unsigned long)i); B[i] = c - 1; } }' % (ct, ct, ct, n, n, n, n, n, n, n))
+        preg = {'name': 'P', 'ety': 'i64', 'cells': n, 'kind': 'tensor', 'role': 'out', 'init': 'undef'}
+        breg = {'name': 'B', 'ety': 'i64', 'cells': n, 'kind': 'raw', 'role': 'scratch', 'init': 'undef'}; bn = n
+    else:
+        post = ('extern "C" void @R@post(const %s* Q0, const %s* Q, const %s* P, %s* D, %s* B){ for(int i=0;i<%d;i++) for(int j=0;j<%d;j++){ %s s=0; for(int k=0;k<%d;k++) s += P[i*%d+k]*Q0[k*%d+j]; D[i*%d+j] = Q[i*%d+j] - s; } '
+                'for(int i=0;i<%d;i++) for(int j=0;j<%d;j++){ %s s=0; for(int k=0;k<%d;k++) s += P[i*%d+k]*P[j*%d+k]; B[i*%d+j] = s - (i==j?1:0); } }' % (ct, ct, ct, ct, ct, n, n, ct, n, n, n, n, n, n, n, ct, n, n, n, n))
+        preg = treg('P', t, [n, n], 'out'); breg = rreg('B', t, n * n); bn = n * n
+    regions = [{'name': 'Q0', 'ety': CELL[t][0], 'cells': n * n, 'kind': 'raw', 'role': 'in', 'init': 'rats', 'ints': rats},
+               rreg('rd', t, n, role='in', init='sym', positive=True), rreg('ru', t, n * n, role='in', init='sym'),
+               treg('A', t, [n, n], 'in', init='undef'), rreg('Re', t, n * n), treg('Q', t, [n, n], 'out'), treg('R', t, [n, n], 'out'), preg, rreg('D', t, n * n), breg]
+    stages = [{'mod': 'ref', 'fn': '@R@pre', 'args': ['Q0', 'rd', 'ru', 'A', 'Re']}, {'mod': 'wit', 'fn': '@W@', 'args': ['A', 'Q', 'R', 'P']}, {'mod': 'ref', 'fn': '@R@post', 'args': ['Q0', 'Q', 'P', 'D', 'B']}]
+    obl = [{'kind': 'equal', 'a': 'R', 'b': 'Re', 'cells': n * n, 'mode': 'ALG'}, {'kind': 'zero', 'region': 'D', 'cells': n * n}, {'kind': 'zero', 'region': 'B', 'cells': bn}]
+    return Witness('qrpiv_%s_%s_%s_%d' % (t, enc, kind, n), 'qr.MGSRPiv.' + enc + '.' + kind, {'type': t, 'n': n, 'q0': kind, 'strategy': 'MGSRPiv', 'enc': enc}, wit, pre + '\n' + post, regions, stages, obl,
+                   extra={'poly_cap': 400000, 'max_ms': 300000})
 
 
 def mk_structure(t, n, strat='MGSR'):
@@ -111,8 +169,18 @@ def witnesses(tier, seed):
                 W.append(mk(t, n, kind))
                 if n <= 6 and kind in ('identity', 'rot345', 'hadamard'):
                     W.append(mk(t, n, kind, det=True))
+        # improper Q0 (determinant -1): the factorisation is still unique (Q == Q0, R == R0); the determinant through QR must carry the sign
+        for n in (1, 2, 3):
+            W.append(mk(t, n, 'reflect'))
+            W.append(mk(t, n, 'reflect', det=True))
         for n in (1, 2, 3, 4, 5, 8, 9):
             W.append(mk_structure(t, n))
+        # the pivoted form end to end (symbolic pivot search): both permutation encodings
+        for enc in ('V', 'M'):
+            for (n, kind) in [(2, 'identity'), (2, 'rot345'), (3, 'rot345'), (3, 'identity')] + ([] if quick else [(3, 'rot51213'), (4, 'hadamard')]):
+                if t == 'f32' and (quick and n > 2):
+                    continue
+                W.append(mk_pivoted(t, n, kind, enc))
     return group_sort(W)
 
 
